@@ -585,6 +585,37 @@ int main()
                     out = h.show_state();
                 }
             }
+            else if (w[0] == "bihcand" && w.size() == 5)
+            {
+                // the candidate volumes the REAL BIHTraverser offers to its predicate, in order
+                // (recording predicate that never accepts)
+                Real3 pos;
+                auto const& p = h.params->host_ref();
+                unsigned long uidx = std::strtoul(w[1].c_str(), nullptr, 10);
+                bool num = !w[1].empty()
+                           && w[1].find_first_not_of("0123456789") == string::npos;
+                if (num && uidx < p.universe_types.size() && parse_3(w, 2, &pos))
+                {
+                    UniverseId uid{static_cast<UniverseId::size_type>(uidx)};
+                    if (p.universe_types[uid] != UniverseType::simple)
+                    {
+                        out = "cand rect";
+                    }
+                    else
+                    {
+                        SimpleUnitRecord const& u
+                            = p.simple_units[SimpleUnitId{p.universe_indices[uid]}];
+                        detail::BIHTraverser traverse{u.bih_tree, p.bih_tree_data};
+                        std::ostringstream os;
+                        os << "cand";
+                        traverse(pos, [&os](LocalVolumeId id) {
+                            os << " " << id.unchecked_get();
+                            return false;
+                        });
+                        out = os.str();
+                    }
+                }
+            }
             else if (w[0] == "locate" && w.size() == 4)
             {
                 // fresh initialisation used only as a convenience; does not touch the main track
